@@ -446,3 +446,109 @@ Proof.
     simpl in Hv. subst v. exists raw. auto.
   - intros (raw & -> & Hb & ->). exact (read_string_complete raw v Hb pos [] r').
 Qed.
+
+(* ------------------------------------------------------------------ *)
+(* block strings: the raw body *)
+Lemma starts_3q_spec l : starts_3q l = true <-> triple_quote l.
+Proof.
+  split.
+  - destruct l as [|a [|b [|c r]]]; simpl; try discriminate.
+    rewrite !andb_true_iff, !N.eqb_eq. intros [[-> ->] ->]. exists r. reflexivity.
+  - intros [r ->]. reflexivity.
+Qed.
+
+Lemma starts_3q_false l : starts_3q l = false <-> ~ triple_quote l.
+Proof. rewrite <- starts_3q_spec. destruct (starts_3q l); split; congruence. Qed.
+
+Lemma block_source_char c :
+  negb ((32 <=? c) || (c =? 9) || (c =? 10) || (c =? 13)) = false <-> SourceCharacter c.
+Proof.
+  unfold SourceCharacter. rewrite negb_false_iff, !orb_true_iff, N.leb_le, !N.eqb_eq. tauto.
+Qed.
+
+Lemma read_block_sound : forall n rest pos acc raw r' e, (length rest <= n)%nat ->
+  read_block rest pos acc = Ok (raw, r', e) ->
+  exists body, block_scan rest body r' /\ raw = rev acc ++ body
+               /\ (e + length r' = pos + length rest)%nat.
+Proof.
+  induction n as [|n IH]; intros rest pos acc raw r' e Hn H.
+  - destruct rest; [discriminate|simpl in Hn; lia].
+  - destruct rest as [|c r]; [discriminate|]. simpl in Hn. cbn [read_block] in H.
+    destruct (starts_3q (c :: r)) eqn:E3.
+    { apply starts_3q_spec in E3. destruct E3 as [r0 E3]. rewrite E3 in *. simpl in H.
+      inversion H; subst. exists []. repeat split; [constructor|rewrite app_nil_r; reflexivity|simpl; lia]. }
+    apply starts_3q_false in E3.
+    assert (Hplain : forall (Hnesc : ~ (c = 92 /\ triple_quote r)),
+              SourceCharacter c -> read_block r (S pos) (c :: acc) = Ok (raw, r', e) ->
+              exists body, block_scan (c :: r) body r' /\ raw = rev acc ++ body
+                           /\ (e + length r' = pos + length (c :: r))%nat).
+    { intros Hnesc Hsc Hr. apply IH in Hr; [|lia]. destruct Hr as (body & Hb & -> & He).
+      exists (c :: body). repeat split.
+      - constructor; assumption.
+      - simpl. rewrite <- app_assoc. reflexivity.
+      - simpl; lia. }
+    destruct (N.eqb_spec c 92) as [->|Hc].
+    + assert (Hsc : SourceCharacter 92) by (unfold SourceCharacter; lia).
+      destruct r as [|q1 [|q2 [|q3 r3]]];
+        try (apply Hplain; [intros [_ [x Hx]]; discriminate|exact Hsc|exact H]).
+      destruct ((q1 =? 34) && (q2 =? 34) && (q3 =? 34)) eqn:Eq.
+      * rewrite !andb_true_iff, !N.eqb_eq in Eq. destruct Eq as [[-> ->] ->].
+        apply IH in H; [|simpl in Hn; lia]. destruct H as (body & Hb & -> & He).
+        exists (34 :: 34 :: 34 :: body). repeat split.
+        -- constructor; assumption.
+        -- simpl. rewrite <- !app_assoc. reflexivity.
+        -- simpl in *; lia.
+      * apply Hplain; [|exact Hsc|exact H].
+        intros [_ [x Hx]]. inversion Hx; subst. simpl in Eq. discriminate.
+    + destruct (negb ((32 <=? c) || (c =? 9) || (c =? 10) || (c =? 13))) eqn:Es; [discriminate|].
+      apply Hplain; [intros [? _]; contradiction|apply block_source_char; exact Es|exact H].
+Qed.
+
+Lemma read_block_complete rest body r' : block_scan rest body r' ->
+  forall pos acc, read_block rest pos acc
+                  = Ok (rev acc ++ body, r', (pos + (length rest - length r'))%nat).
+Proof.
+  induction 1 as [r'|rest raw r' Hb IH|c rest raw r' Hsc Hnt Hne Hb IH]; intros pos acc.
+  - match goal with
+    | |- context [(?a - ?b)%nat] =>
+        replace (a - b)%nat with 3%nat by (unfold str, char in *; simpl length; lia)
+    end.
+    simpl. rewrite app_nil_r. reflexivity.
+  - assert (Hl : (length r' <= length rest)%nat).
+    { clear -Hb. unfold str, char in *. induction Hb; simpl length in *; lia. }
+    match goal with
+    | |- context [(pos + (?a - ?b))%nat] =>
+        replace (pos + (a - b))%nat with (pos + 4 + (length rest - length r'))%nat
+          by (unfold str, char in *; simpl length; lia)
+    end.
+    cbn [read_block]. replace (starts_3q (92 :: 34 :: 34 :: 34 :: rest)) with false by reflexivity.
+    replace (92 =? 92) with true by reflexivity.
+    replace ((34 =? 34) && (34 =? 34) && (34 =? 34)) with true by reflexivity.
+    rewrite IH. simpl rev. rewrite <- !app_assoc. reflexivity.
+  - cbn [read_block]. apply starts_3q_false in Hnt. rewrite Hnt.
+    assert (Hl : (length r' <= length rest)%nat).
+    { clear -Hb. unfold str, char in *. induction Hb; simpl length in *; lia. }
+    assert (Hgo : read_block rest (S pos) (c :: acc)
+                  = Ok (rev acc ++ c :: raw, r', (pos + (length (c :: rest) - length r'))%nat)).
+    { rewrite IH. simpl rev. rewrite <- app_assoc. simpl app. f_equal. f_equal.
+      unfold str, char in *. simpl length. lia. }
+    destruct (N.eqb_spec c 92) as [->|Hc].
+    + destruct rest as [|q1 [|q2 [|q3 r3]]]; try exact Hgo.
+      destruct ((q1 =? 34) && (q2 =? 34) && (q3 =? 34)) eqn:Eq; [|exact Hgo].
+      rewrite !andb_true_iff, !N.eqb_eq in Eq. destruct Eq as [[-> ->] ->].
+      exfalso. apply Hne. split; [reflexivity|exists r3; reflexivity].
+    + apply block_source_char in Hsc. rewrite Hsc. exact Hgo.
+Qed.
+
+Lemma block_scan_length rest raw r' : block_scan rest raw r' -> (length r' + 3 <= length rest)%nat.
+Proof. unfold str, char in *. induction 1; simpl length in *; lia. Qed.
+
+Theorem block_body_iff rest pos raw r' e :
+  read_block rest pos [] = Ok (raw, r', e) <->
+  block_scan rest raw r' /\ e = (pos + (length rest - length r'))%nat.
+Proof.
+  split.
+  - intros H. destruct (read_block_sound (length rest) rest pos [] raw r' e (le_n _) H) as (body & Hb & -> & He).
+    simpl. split; [exact Hb|]. pose proof (block_scan_length _ _ _ Hb). unfold str, char in *. lia.
+  - intros [Hb ->]. exact (read_block_complete rest raw r' Hb pos []).
+Qed.
